@@ -1,4 +1,5 @@
 """C15 - mutating while iterating never crashes or damages the container."""
+from ..harness import safe_repr as _srepr  # noqa: E402
 from .. import families, gen, harness, hist, walker
 from ..families import f32
 from ..harness import brief, call, eq
@@ -200,7 +201,7 @@ def run_history(fam, kind, impl, rng, rec, h):
         if r < 0.5 and cursors:
             # ---- step a cursor -------------------------------------------
             cur = rng.choice(cursors)
-            rec.journal(repr((desc, ls.log[-25:], log[-25:])))
+            rec.journal(_srepr((desc, ls.log[-25:], log[-25:])))
             try:
                 if cur.kind == 'iter':
                     stepk = 'next'
